@@ -142,8 +142,14 @@ impl<'a> SplitMessageBytes<'a> for &'a UnparsedName {
 
                 // This is a compression pointer.
                 [hi, lo, ..] if hi >= 0xC0 => {
-                    let ptr = u16::from_be_bytes([hi, lo]);
-                    if usize::from(ptr - 0xC000) >= start {
+                    // The pointer is an offset from the start of the message
+                    // (including the 12-byte header), while 'start' is an
+                    // offset into the message contents.  Like the other name
+                    // types, only accept pointers to before this name.
+                    let ptr = u16::from_be_bytes([hi, lo]) & 0x3FFF;
+                    let target =
+                        usize::from(ptr).checked_sub(12).ok_or(ParseError)?;
+                    if target >= start {
                         return Err(ParseError);
                     }
 
